@@ -372,3 +372,112 @@ func pickRare(r *RNG, all []string, def string) (string, byte) {
 	}
 	return with[r.Intn(len(with))], c
 }
+
+// ---------- families added after the third wave of seeded changes ----------
+
+// tokenPrefixes: every proper prefix of s that ends at a token boundary (before a punctuation
+// token or after an alphanumeric one): 1.0_alpha_p1 -> 1, 1.0, 1.0_alpha, 1.0_alpha_p.  Rules of
+// the kind "the longer list decides" / "missing = zero" are decided between a text and its own
+// prefixes.
+func tokenPrefixes(s string) []string {
+	ts := tokens(s)
+	var out []string
+	acc := ""
+	for i, t := range ts {
+		acc += t
+		if i+1 < len(ts) && tokClass(t[0]) != 2 {
+			out = append(out, acc)
+		}
+	}
+	return out
+}
+
+// deepArity: dotted (sep) numeric tuples of up to 12 components that extend base: zero tails with
+// and without a final non-zero component, an increasing tail, and each of their prefixes.  Loops
+// over "the first k components" and padding rules show at the k+1-th.
+func deepArity(r *RNG, base string, sep string) []string {
+	tail := []string{"0", "0", "0", "0", "0", "0", "0", "0", "0", "0", "0"}
+	var out []string
+	n := 4 + r.Intn(8)
+	z := base
+	for i := 0; i < n; i++ {
+		z += sep + tail[i]
+		if i >= 2 {
+			out = append(out, z+sep+"1", z+sep+"0")
+		}
+	}
+	inc := base
+	for i := 2; i < 2+n; i++ {
+		inc += sep + strconv.Itoa(i)
+		if i >= 4 {
+			out = append(out, inc)
+		}
+	}
+	return out
+}
+
+// edgeLetterVariants: s with one alphabetic token replaced by words made of the first and last
+// letters of each case, glued to small numbers: hand-written character classes go wrong at
+// their edges (c < 'Z'), and digit/letter transitions are where tokenizers split.
+func edgeLetterVariants(r *RNG, s string) []string {
+	ts := tokens(s)
+	var idx []int
+	for i, t := range ts {
+		if tokClass(t[0]) == 1 {
+			idx = append(idx, i)
+		}
+	}
+	words := []string{"Z", "z", "A", "a", "XYZ", "xyz", "AZ", "Za", "zZ", "JAZZ", "jazz"}
+	w := words[r.Intn(len(words))]
+	mk := func(i int, nt string) string {
+		c := append([]string{}, ts...)
+		c[i] = nt
+		return strings.Join(c, "")
+	}
+	var out []string
+	if len(idx) > 0 {
+		i := idx[r.Intn(len(idx))]
+		out = append(out, mk(i, w), mk(i, w+"2"), mk(i, w+"10"), mk(i, strings.ToLower(w)+"2"), mk(i, w+"-2"), mk(i, w+".2"))
+	}
+	// the same words after the whole text, with the joiners a version grammar may use
+	j := []string{"-", ".", "_", "+", "~", ""}[r.Intn(6)]
+	out = append(out, s+j+w, s+j+w+"2", s+j+w+"10", s+j+strings.ToLower(w)+"2")
+	return out
+}
+
+// punctuationPairs: two-byte sequences over the punctuation bytes that occur in the candidate set,
+// put between two tokens of s, at its end, and between s and an appended word: scanners that step
+// over separators meet "separator, then something special, then the end" only this way.
+func punctuationPairs(r *RNG, s string, all []string) []string {
+	seen := map[byte]bool{}
+	var ps []byte
+	for _, c := range all {
+		for i := 0; i < len(c); i++ {
+			if tokClass(c[i]) == 2 && c[i] > ' ' && c[i] < 0x7f && !seen[c[i]] {
+				seen[c[i]] = true
+				ps = append(ps, c[i])
+			}
+		}
+	}
+	if len(ps) < 2 {
+		return nil
+	}
+	var out []string
+	ts := tokens(s)
+	for k := 0; k < 6; k++ {
+		pair := string([]byte{ps[r.Intn(len(ps))], ps[r.Intn(len(ps))]})
+		switch k % 3 {
+		case 0:
+			out = append(out, s+pair, s+pair+"rc", s+pair+"1", s+pair[:1]+"rc"+pair[1:], s+pair[:1]+"rc"+pair[1:]+"1")
+		case 1:
+			if len(ts) > 1 {
+				i := 1 + r.Intn(len(ts)-1)
+				out = append(out, strings.Join(ts[:i], "")+pair+strings.Join(ts[i:], ""))
+			}
+		default:
+			// s ends with a word: word, word+pair, word+pair+x
+			out = append(out, s+"a", s+"a"+pair, s+"a"+pair+"b", s+"a"+pair+"1", s+"a"+pair[:1])
+		}
+	}
+	return out
+}
